@@ -11,7 +11,7 @@ The pipeline is put together from the definitions the other properties' theorems
 
 * `CClean.parseFile` (C05: `c_file_source` + the `LineGroup` folding of `FileParser.parse_file`) gives the node list of a
   text: kind (code / directive), `lines`, `num_lines`;
-* the text of the k-th directive node is the text of the k-th yielded `CPP_DIRECTIVE` logical line of the same
+* the text of the k-th directive node is the text of the k-th yielded directive logical line of the same
   `CClean.cFileSource` run (`dirTexts`), handed to `PP.parseDirective` (`DirectiveParser.parse`, C01's parse layer): `attach`;
 * `PP.analyseNodes` (C01: `SourceTree.insert` + the associator with `Platform.define`) is run once per configuration entry
   (one compile command = one `-D` list) of every platform, in configuration order, as `finder.find` does after it has
@@ -51,11 +51,11 @@ def errOf : CClean.Err → PP.Err
   | .finalBackslash => .runtime "file seems to end in \\ with no newline!"
   | .notTopLevel => .runtime "Parser must end at top level without 'relaxed' mode."
   | .inconsistent => .runtime "Inconsistent parser state"
-  | .notDirective => .parse "Not a directive."
 
-/-- `flushed_line` of the yielded `CPP_DIRECTIVE` logical lines, in source order -/
+/-- `flushed_line` of the yielded logical lines that `parse_file` treats as directives (`FileParser.is_directive`:
+    category `CPP_DIRECTIVE`, first token not `##`), in source order -/
 def dirTexts (t : List Char) : List (List Char) :=
-  (((CClean.cFileSource t).all.filter CClean.LLine.yielded).filter fun l => l.cat == .cppDirective).map CClean.LLine.text
+  (((CClean.cFileSource t).all.filter CClean.LLine.yielded).filter CClean.LLine.isDirective).map CClean.LLine.text
 
 /-- the C05 node list with the payload of every directive node: the k-th directive node is
     `DirectiveParser(Lexer(text_k).tokenize()).parse()` of the k-th directive line -/
